@@ -85,7 +85,28 @@ let c09f side f =
 
 let c09init side _f = match side with `Model -> choice_name ch_global_initial | `Spec -> "N/A"
 
+(* c09m <macro> <stdout tty> <stderr tty> <payload> <global> [<name>=<value>]...: one print macro / panic! on the real
+   streams, each of its own kind; the stream the macro writes to decides (stdout for print / println, stderr for
+   eprint / eprintln / panic), the text is stripped exactly when the decision is Never *)
+let hexo l = if l = [] then "-" else hexn l
+
+let c09m side f =
+  match f with
+  | mac :: ot :: et :: payload :: g :: rest ->
+      let tty = bool_of_field (if mac = "print" || mac = "println" then ot else et) in
+      let g = choice_of_name g and e = env_of rest in
+      let c = match side with `Model -> choice_model g e tty | `Spec -> choice_spec g e tty in
+      let data = nlist (unhex payload) in
+      let strip = (c = ChNever) in
+      (match side with
+       | `Spec -> hexo (if strip then spec_strip data else data)
+       | `Model ->
+           let (_, w), _ = unopt (run_ops true (if strip then MStrip else MPass) sb_new (writer_of []) [ OWriteFmt [ data ] ]) in
+           hexo w.w_received)
+  | _ -> failwith "c09m"
+
 let () =
+  register "c09m" c09m;
   register "c09" c09;
   register "c09s" c09s;
   register "c09p" c09p;
